@@ -1,4 +1,4 @@
-package main
+package hlib
 
 // Rng is SplitMix64: every random choice of a run derives from one seed (VERIF_SEED), so a
 // disagreement replays exactly.
